@@ -321,11 +321,11 @@ def floatterm(x: Any) -> Any:
 
 
 def is_sym(x: Any) -> bool:
-    return isinstance(x, (Sym, SList, SMap))
+    return isinstance(x, (Sym, SList, SMap, SODict))
 
 
 def contains_sym(x: Any, _depth: int = 0) -> bool:
-    if isinstance(x, (Sym, SList, SMap, SObj, SExc)):
+    if isinstance(x, (Sym, SList, SMap, SObj, SExc, SODict)):
         return True
     if _depth > 6:
         return False
@@ -367,7 +367,17 @@ def Iff(a: Any, b: Any) -> SBool:
     return SBool(boolterm(a) == boolterm(b))
 
 
+BOUND_K: list[int] = []  # non-empty: bounded mode (DESIGN §2.1 step 6) — quantifiers over indices are expanded
+
+
+def _bound_range() -> list["SInt"]:
+    k = BOUND_K[-1]
+    return [SInt(z3.IntVal(i)) for i in range(-1, k + 2)]
+
+
 def ForAllInt(fn: Callable[[SInt], Any], name: str = "q", patterns: Callable[[SInt], list[Any]] | None = None) -> SBool:
+    if BOUND_K:
+        return And(*[fn(i) for i in _bound_range()])
     v = z3.Int(fresh_name(name))
     body = boolterm(fn(SInt(v)))
     if patterns is not None:
@@ -377,12 +387,16 @@ def ForAllInt(fn: Callable[[SInt], Any], name: str = "q", patterns: Callable[[SI
 
 
 def ForAllInt2(fn: Callable[[SInt, SInt], Any], name: str = "q") -> SBool:
+    if BOUND_K:
+        return And(*[fn(i, j) for i in _bound_range() for j in _bound_range()])
     v = z3.Int(fresh_name(name))
     w = z3.Int(fresh_name(name))
     return SBool(z3.ForAll([v, w], boolterm(fn(SInt(v), SInt(w)))))
 
 
 def ExistsInt(fn: Callable[[SInt], Any], name: str = "e") -> SBool:
+    if BOUND_K:
+        return Or(*[fn(i) for i in _bound_range()])
     v = z3.Int(fresh_name(name))
     return SBool(z3.Exists([v], boolterm(fn(SInt(v)))))
 
@@ -481,11 +495,24 @@ def truth(v: Any) -> Any:
         return SBool(z3.Not(z3.fpIsZero(v.t)))
     if isinstance(v, SList):
         return SBool(v.length > 0)
+    if isinstance(v, SODict):
+        return SBool(v.length > 0)
     if isinstance(v, SMap):
         raise Unsupported("truthiness of a symbolic map")
     if isinstance(v, SOpaque):
         raise Unsupported(f"truthiness of opaque value {v!r}")
-    if isinstance(v, (SObj, SExc)):
+    if isinstance(v, SObj):
+        if _CTX:
+            H = _CTX[-1].handlers
+            h = H.get(f"{v.kind}.__bool__")
+            if h is not None:
+                return h(_CTX[-1], v)
+            h = H.get(f"{v.kind}.__len__")
+            if h is not None:
+                n = h(_CTX[-1], v)
+                return truth(n)
+        return True
+    if isinstance(v, SExc):
         return True
     return bool(v)
 
@@ -564,6 +591,8 @@ class ListShape(Shape):
         n = z3.Int(fresh_name(name + "_len"))
         c = ctx()
         c.assume(n >= 0)
+        if BOUND_K:
+            c.assume(n <= BOUND_K[-1])
         return SList(self.elem, self.elem.indexed(name), n)
 
     def __repr__(self) -> str:
@@ -786,3 +815,60 @@ class SExc:
 
     def __repr__(self) -> str:
         return f"<SExc {self.cls.__name__}{self.args!r}>"
+
+
+# --------------------------------------------------------------------------------------
+# ordered dict as a sequence of (key, value) with pairwise-distinct keys
+# --------------------------------------------------------------------------------------
+
+
+class SODict:
+    """``dict`` / ``OrderedDict`` whose contents are symbolic, kept as the insertion-ordered
+    sequence of its items.  Keys are pairwise distinct (assumed by ``fresh``, preserved by
+    every operation).  Iteration order, ``popitem(last=...)`` and ``move_to_end`` are exact."""
+
+    def __init__(self, key_shape: Shape, val_shape: Shape, items: SList) -> None:
+        self.key_shape, self.val_shape, self.items = key_shape, val_shape, items
+
+    @staticmethod
+    def fresh(name: str, key_shape: Shape, val_shape: Shape) -> "SODict":
+        items = ListShape(TupleShape(key_shape, val_shape)).fresh(name)
+        d = SODict(key_shape, val_shape, items)
+        ctx().assume(d.distinct_keys())
+        return d
+
+    @staticmethod
+    def empty(key_shape: Shape, val_shape: Shape) -> "SODict":
+        sh = TupleShape(key_shape, val_shape)
+        return SODict(key_shape, val_shape, SList(sh, sh.indexed(fresh_name("empty")), z3.IntVal(0)))
+
+    def distinct_keys(self) -> SBool:
+        it = self.items.snapshot()
+        return ForAllInt2(lambda i, j: Implies(And(i >= 0, SBool(i.t < j.t), SBool(j.t < it.length)), Not(eq(it.get(i)[0], it.get(j)[0]))))
+
+    @property
+    def length(self) -> Any:
+        return self.items.length
+
+    def key(self, i: Any) -> Any:
+        return self.items.get(i)[0]
+
+    def val(self, i: Any) -> Any:
+        return self.items.get(i)[1]
+
+    def has(self, k: Any) -> SBool:
+        it = self.items.snapshot()
+        return ExistsInt(lambda i: And(i >= 0, SBool(i.t < it.length), eq(it.get(i)[0], k)))
+
+    def index_of(self, k: Any) -> SInt:
+        """Position of a key known (on this path) to be present."""
+        p = SInt(z3.Int(fresh_name("pos")))
+        ctx().assume(And(p >= 0, SBool(p.t < self.items.length), eq(self.key(p), k)))
+        return p
+
+    def snapshot(self) -> "SODict":
+        return SODict(self.key_shape, self.val_shape, self.items.snapshot())
+
+
+def fresh_like_odict(d: SODict, name: str) -> SODict:
+    return SODict.fresh(name, d.key_shape, d.val_shape)
